@@ -40,7 +40,7 @@ type dhcpSubnet struct {
 // newSubnet create a subnet structure to track lease allocation.
 func newSubnet(config SubnetConfig) (*dhcpSubnet, error) {
 
-	if !config.LAN.IsValid() {
+	if !config.LAN.IsValid() || !config.LAN.Addr().Is4() { // IPv4 only: the lease file is not trusted
 		return nil, fmt.Errorf("invalid subnet %s", config.LAN)
 	}
 	subnet := dhcpSubnet{}
@@ -200,7 +200,7 @@ func (handler *Handler) loadByteArray(source []byte) (net1 *dhcpSubnet, net2 *dh
 
 	// Careful: Yaml does not set private fields in unmarshaled structured.
 	//          so the v.subnet is nil and will cause a fatal error
-	if table.Leases != nil {
+	if table.Leases != nil && net1 != nil { // leases without a home subnet (damaged file) are dropped
 		for _, v := range table.Leases {
 			// MUST set v.subnet before printing to avoid fatal error
 			//      when printing v
@@ -221,7 +221,7 @@ func (handler *Handler) loadByteArray(source []byte) (net1 *dhcpSubnet, net2 *dh
 			}
 
 			// if mac is captured, validate the IP is in the net2 subnet
-			if handler.session.IsCaptured(v.Addr.MAC) {
+			if net2 != nil && handler.session.IsCaptured(v.Addr.MAC) {
 				if net2.LAN.Contains(v.Addr.IP) {
 					v.subnet = net2
 				}
